@@ -170,6 +170,8 @@ type server struct {
 	status   int32        //server status
 	// clients stores the  online clients
 	clients map[string]*client
+	// connecting stores the accepted connections that have not (yet) registered a client id
+	connecting map[*client]struct{}
 	// offlineClients store the expired time of all disconnected clients
 	// with valid session(not expired). Key by clientID
 	offlineClients  map[string]time.Time
@@ -414,6 +416,14 @@ func (srv *server) registerClient(connect *packets.Connect, client *client) (ses
 		}
 		srv.mu.Unlock()
 	}()
+	// Stop has begun and has listed (or is about to list) the connections to close: do not register another client
+	select {
+	case <-srv.exitChan:
+		err = codes.NewError(codes.ServerUnavailable)
+		return
+	default:
+	}
+	delete(srv.connecting, client)
 
 	client.setConnected(time.Now())
 	if srv.hooks.OnConnected != nil {
@@ -1156,8 +1166,18 @@ func (srv *server) newClient(c net.Conn) (*client, error) {
 		cli:      client,
 	}
 	client.setConnecting()
-
+	srv.addConnecting(client)
 	return client, nil
+}
+
+// addConnecting records an accepted connection until it registers a client id or ends, so that Stop can close it.
+func (srv *server) addConnecting(c *client) {
+	srv.mu.Lock()
+	defer srv.mu.Unlock()
+	if srv.connecting == nil {
+		srv.connecting = make(map[*client]struct{})
+	}
+	srv.connecting[c] = struct{}{}
 }
 
 func (srv *server) initPluginHooks() error {
@@ -1558,11 +1578,14 @@ func (srv *server) Stop(ctx context.Context) error {
 		}
 		// close all idle clients
 		srv.mu.Lock()
-		chs := make([]chan struct{}, len(srv.clients))
-		i := 0
+		chs := make([]chan struct{}, 0, len(srv.clients)+len(srv.connecting))
 		for _, c := range srv.clients {
-			chs[i] = c.closed
-			i++
+			chs = append(chs, c.closed)
+			c.Close()
+		}
+		// and the connections that have not sent (or completed) CONNECT yet
+		for c := range srv.connecting {
+			chs = append(chs, c.closed)
 			c.Close()
 		}
 		srv.mu.Unlock()
